@@ -5,7 +5,7 @@ from dataclasses import dataclass
 import sys
 
 from geneticengine.grammar.grammar import Grammar
-from geneticengine.random.sources import RandomSource
+from geneticengine.random.sources import RandomSource, float_between
 from geneticengine.representations.api import (
     RepresentationWithCrossover,
     RepresentationWithMutation,
@@ -33,7 +33,7 @@ class ListWrapper(RandomSource):
 
     def random_float(self, min: float, max: float) -> float:
         k = self.randint(1, sys.maxsize)
-        return 1 * (max - min) / k + min
+        return float_between(min, max, 1, k)
 
 
 class GrammaticalEvolutionRepresentation(
